@@ -46,7 +46,7 @@ theorem switch_inv {l l1 l' : L} {id pre s : Nat} {pb sb : Hdr} {txids : List Na
     (hC : ∀ t, lookup l'.C t = if t ∈ txids then some id else lookup l1.C t)
     (hroot : l'.root = l.root) (htip : l'.tip = id) (hth : l'.trunkHeight = pb.height + 1)
     (hfresh : ∀ a ha, Anc l a pre → lookup l.B a = some ha → ∀ t, t ∈ txids → t ∉ ha.txs)
-    (hidC : ∀ t, lookup l.C t = some id → t ∈ txids) : LedgerInv l' := by
+    (hidC : ∀ t, lookup l.C t = some id → t ∈ txids) : LedgerInv l' ∧ (CStored l → CStored l') := by
   have T := I.tree
   obtain ⟨tb, hts, hth0⟩ := I.tip
   have hnew : lookup l'.B id = some ⟨some pre, pb.height + 1, true, none, txids⟩ := by rw [hB, if_pos rfl]
@@ -80,6 +80,7 @@ theorem switch_inv {l l1 l' : L} {id pre s : Nat} {pb sb : Hdr} {txids : List Na
     · have hq' : ∀ x xb, lookup l.B x = some xb → Anc l x pre → ¬ Anc l x l.tip → t ∉ xb.txs :=
         fun x xb sx h1 h2 ht => hq ⟨x, xb, sx, h1, h2, ht⟩
       exact Or.inr ⟨hq', S.Co t hq'⟩
+  refine ⟨?_, ?_⟩
   refine
     { tree := A.tree T, tip := ⟨_, by rw [htip]; exact hnew, by rw [hth]⟩, trunk := ?_,
       zh_sound := ?_, zh_complete := ?_, next_path := ?_, next_none := ?_, height_le := ?_,
@@ -260,6 +261,21 @@ theorem switch_inv {l l1 l' : L} {id pre s : Nat} {pb sb : Hdr} {txids : List Na
         · rw [hx]
           exact I.c_trunk b xb t sx htp ht
       · exact S.Cq t b xb sx hq htp ht (fun y yb sy hy hne => I.norepeat y b yb xb sy sx hy hne t ht)
+  · -- CStored
+    intro CS t c hc
+    rw [hC] at hc
+    by_cases e : t ∈ txids
+    · rw [if_pos e] at hc; cases hc
+      exact ⟨_, hnew⟩
+    · rw [if_neg e] at hc
+      rcases l1C t with ⟨x, xb, sx, _, _, _, hx⟩ | ⟨_, hx⟩
+      · rw [hx] at hc; cases hc
+        obtain ⟨h', f1, _⟩ := A.fwd sx
+        exact ⟨h', f1⟩
+      · rw [hx] at hc
+        obtain ⟨ch, sc⟩ := CS t c hc
+        obtain ⟨h', f1, _⟩ := A.fwd sc
+        exact ⟨h', f1⟩
 
 /-- the outcomes of `confirm` that make the new block the tip preserve the invariant -/
 theorem confirm_tip_inv {l l1 l4 : L} {id pre sh sh' : Nat} {pb : Hdr} {txs : List (Nat × Bool)} (I : LedgerInv l)
@@ -268,7 +284,8 @@ theorem confirm_tip_inv {l l1 l4 : L} {id pre sh sh' : Nat} {pb : Hdr} {txs : Li
     (hc : confirmTxs l id true sh' txs 0 (withNew l1 id pre (pb.height + 1) true (txs.map (·.1))) = some l4)
     (hfresh : ∀ a ha, Anc l a pre → lookup l.B a = some ha → ∀ t, t ∈ txs.map (·.1) → t ∉ ha.txs)
     (hidC : ∀ t, lookup l.C t = some id → t ∈ txs.map (·.1)) :
-    LedgerInv { l4 with tip := id, trunkHeight := pb.height + 1 } := by
+    LedgerInv { l4 with tip := id, trunkHeight := pb.height + 1 } ∧
+    (CStored l → CStored { l4 with tip := id, trunkHeight := pb.height + 1 }) := by
   obtain ⟨tb, hts, hth0⟩ := I.tip
   obtain ⟨l1', s, sb, hrun, S⟩ := handleFork_spec I.tree (l.trunkHeight + 2) l.tip pre (some id) l tb pb hts hp
     (by omega) (by omega)
@@ -309,14 +326,14 @@ theorem ext_as_fork {l : L} {id : Nat} {tb : Hdr} (I : LedgerInv l) (hts : looku
     rfl
   rw [e]
 
-/-- **`confirm` preserves the main-chain invariant**, for every input: `hfresh` = the new block repeats no
-transaction of its own branch, `hidC` = confirmed-table entries already naming `id` (left over from a truncated
-block with the same id) are transactions of the new block. -/
-theorem confirm_ledgerInv {l : L} (I : LedgerInv l) (id pre : Nat) (txs : List (Nat × Bool))
+/-- `confirm` preserves the main-chain invariant, and the property that every confirmed-table entry names a stored
+block -/
+theorem confirm_ledgerInv_both {l : L} (I : LedgerInv l) (id pre : Nat) (txs : List (Nat × Bool))
     (hfresh : ∀ a ha, Anc l a pre → lookup l.B a = some ha → ∀ t, t ∈ txs.map (·.1) → t ∉ ha.txs)
-    (hidC : ∀ t, lookup l.C t = some id → t ∈ txs.map (·.1)) : LedgerInv (confirm l id pre txs).1 := by
+    (hidC : ∀ t, lookup l.C t = some id → t ∈ txs.map (·.1)) :
+    LedgerInv (confirm l id pre txs).1 ∧ (CStored l → CStored (confirm l id pre txs).1) := by
   rcases confirm_cases l id pre txs with e | ⟨pb, hid, hp, h⟩
-  · rw [e]; exact I
+  · rw [e]; exact ⟨I, fun h => h⟩
   · rcases h with ⟨e, l4, hc, er⟩ | ⟨_, hgt, l1, sh, l4, hf, hc, er⟩ | ⟨_, hle, l4, hc, er⟩
     · rw [er]
       subst e
@@ -330,5 +347,30 @@ theorem confirm_ledgerInv {l : L} (I : LedgerInv l) (id pre : Nat) (txs : List (
       exact confirm_tip_inv I hid hp (by omega) hf hc hfresh hidC
     · rw [er]
       exact confirm_side_inv I hid hp hle hc hfresh hidC
+
+/-- **`confirm` preserves the main-chain invariant**, for every input: `hfresh` = the new block repeats no
+transaction of its own branch, `hidC` = confirmed-table entries already naming `id` (left over from a truncated
+block with the same id) are transactions of the new block. -/
+theorem confirm_ledgerInv {l : L} (I : LedgerInv l) (id pre : Nat) (txs : List (Nat × Bool))
+    (hfresh : ∀ a ha, Anc l a pre → lookup l.B a = some ha → ∀ t, t ∈ txs.map (·.1) → t ∉ ha.txs)
+    (hidC : ∀ t, lookup l.C t = some id → t ∈ txs.map (·.1)) : LedgerInv (confirm l id pre txs).1 :=
+  (confirm_ledgerInv_both I id pre txs hfresh hidC).1
+
+/-- along truncation-free histories (`CStored`) the hypothesis on left-over entries is not needed -/
+theorem confirm_ledgerInv_cstored {l : L} (I : LedgerInv l) (CS : CStored l) (id pre : Nat) (txs : List (Nat × Bool))
+    (hfresh : ∀ a ha, Anc l a pre → lookup l.B a = some ha → ∀ t, t ∈ txs.map (·.1) → t ∉ ha.txs) :
+    LedgerInv (confirm l id pre txs).1 ∧ CStored (confirm l id pre txs).1 := by
+  cases hid : lookup l.B id with
+  | some x =>
+    rcases confirm_cases l id pre txs with e | ⟨pb, hid', _⟩
+    · rw [e]; exact ⟨I, CS⟩
+    · rw [hid] at hid'; cases hid'
+  | none =>
+    have hidC : ∀ t, lookup l.C t = some id → t ∈ txs.map (·.1) := by
+      intro t ht
+      obtain ⟨ch, sc⟩ := CS t id ht
+      rw [hid] at sc; cases sc
+    obtain ⟨h1, h2⟩ := confirm_ledgerInv_both I id pre txs hfresh hidC
+    exact ⟨h1, h2 CS⟩
 
 end XV.Ledger
